@@ -7,4 +7,4 @@
      WatchProofs   watch_complete_ordered, delivered_committed, read_after_event
      Examples      concrete schedules (the former restore counterexamples, now repaired; non-vacuity) *)
 From Verif Require Export Resource.TableProofs Resource.CasProofs Resource.WatchDefs Resource.WatchLemmas
-     Resource.WatchInv Resource.WatchProofs Resource.Examples.
+     Resource.WatchInv Resource.WatchProofs Resource.Examples Resource.RaftProofs Resource.RaftWatch.
